@@ -294,6 +294,22 @@ def _use_of(fn, call) -> str:
                 return "identity"
             if isinstance(p, ast.Subscript):
                 return "identity"
+        # S.update(id(e) for e in ...) / S = {id(e) for e in ...}: a set of identities, used for membership tests only
+        for k, p in enumerate(chain[:3]):
+            if isinstance(p, (ast.GeneratorExp, ast.SetComp)) and p.elt is (chain[k - 1] if k else call):
+                holder = chain[k + 1] if k + 1 < len(chain) else None
+                set_name = None
+                if isinstance(p, ast.GeneratorExp) and isinstance(holder, ast.Call) and isinstance(holder.func, ast.Attribute) and holder.func.attr == "update" and isinstance(holder.func.value, ast.Name):
+                    set_name = holder.func.value.id
+                elif isinstance(p, ast.SetComp) and isinstance(holder, ast.Assign) and isinstance(holder.targets[0], ast.Name):
+                    set_name = holder.targets[0].id
+                if set_name is not None:
+                    loads = [u for u in ast.walk(fn) if isinstance(u, ast.Name) and u.id == set_name and isinstance(u.ctx, ast.Load)]
+                    member_only = all(any((isinstance(n, ast.Compare) and any(x is u for x in n.comparators) and any(isinstance(o, (ast.In, ast.NotIn)) for o in n.ops))
+                                          or (isinstance(n, ast.Call) and isinstance(n.func, ast.Attribute) and n.func.value is u and n.func.attr in ("update", "add", "discard", "clear"))
+                                          for n in ast.walk(fn)) for u in loads)
+                    if member_only:
+                        return "identity"
         # assigned (possibly inside a tuple key) to a name that is only used that way
         asg = None
         for p in chain[:3]:
@@ -679,6 +695,25 @@ HOST_DATABASES = {
 }
 
 
+def memoised_host_lookups(ctx: Ctx):
+    """(function, decorator, host call) for every memoised function that -- itself or through callees -- consults a host-wide database:
+    the memo freezes one state of that database while un-memoised siblings keep following it."""
+    from sa.engine.callgraph import reachable_functions
+
+    out = []
+    for fi in ctx.p.all_functions():
+        if "/tests/" in fi.module.rel:
+            continue
+        decos = [d for d in fi.node.decorator_list if (dotted(d.func) if isinstance(d, ast.Call) else dotted(d) or "").split(".")[-1] in ("lru_cache", "cache", "cached_property")]
+        if not decos:
+            continue
+        for g in reachable_functions(ctx.p, [fi]).values():
+            for c in calls_in(g):
+                if (dotted(c.func) or "") in HOST_DATABASES:
+                    out.append((fi, decos[0], c, g is fi))
+    return out
+
+
 def rule_host(ctx: Ctx) -> RuleReport:
     """A result is a function of (bytes, path): nothing that is looked up in a database of the host may decide a routing or a field."""
     rep = RuleReport("C06-HOST", "no value looked up in a host-wide database (MIME types of the host, locale, platform, environment) decides a route or reaches a result; "
@@ -698,6 +733,15 @@ def rule_host(ctx: Ctx) -> RuleReport:
                 rep.ok({"site": f"{fi.qual}: {short(c, 40)}", "use": use})
             else:
                 rep.fail(Finding("C06-HOST", fi.module.rel, fi.qual, f"{d} decides a result", f"`{short(c, 50)}` consults {HOST_DATABASES[d]}: the same (bytes, path) gives a different route or field on a host whose table differs (an entry 'application/pdf prn' in /etc/mime.types makes 'report.prn' a PDF on that host only)", line=c.lineno))
+    indirect = []
+    for fi, deco, c, direct in memoised_host_lookups(ctx):
+        if not direct:
+            # a memo in front of a function that has the (open, recorded) host lookup: a consequence of that finding, counted not judged
+            indirect.append(fi.qual)
+            continue
+        rep.fail(Finding("C06-HOST", fi.module.rel, fi.qual, f"memoised lookup in a host database: {dotted(c.func)}", f"{fi.qual} is memoised (`{short(deco, 30)}`) although its answer depends on `{short(c, 40)}` ({HOST_DATABASES[dotted(c.func)]}): the first answer is kept for the life of the process while the database -- and every function that asks it directly -- moves on", line=fi.node.lineno))
+    if indirect:
+        rep.info.append("memoised wrappers around functions with a host lookup (follow from the open router finding, not judged separately): " + ", ".join(sorted(set(indirect))))
     # positive: the private tables in use
     for m in ctx.p.modules.values():
         if "/tests/" in m.rel:
